@@ -198,6 +198,12 @@ pub enum Kind {
     DanglingReference(usize),
     BadTimestamp(usize),
     MatrixMismatch(usize),
+    /// loadable-looking inputs that fail at different depths of the pipeline
+    LocationNotInMatrixAtOrigin(usize),
+    LocationNotInMatrixAtDepot(usize),
+    SlotEndsBeforeStart(usize),
+    DanglingVehicleType(usize),
+    RaggedMatrix(usize),
     UnknownRoute,
     WrongMethod,
 }
@@ -218,6 +224,11 @@ impl Kind {
             Kind::DanglingReference(_) => "fault.invalid.dangling_reference",
             Kind::BadTimestamp(_) => "fault.invalid.bad_timestamp",
             Kind::MatrixMismatch(_) => "fault.invalid.matrix_mismatch",
+            Kind::LocationNotInMatrixAtOrigin(_) => "fault.invalid.location_not_in_matrix_at_origin",
+            Kind::LocationNotInMatrixAtDepot(_) => "fault.invalid.location_not_in_matrix_at_depot",
+            Kind::SlotEndsBeforeStart(_) => "fault.invalid.slot_ends_before_start",
+            Kind::DanglingVehicleType(_) => "fault.invalid.dangling_vehicle_type",
+            Kind::RaggedMatrix(_) => "fault.invalid.ragged_matrix",
             Kind::UnknownRoute => "fault.unknown_route",
             Kind::WrongMethod => "fault.wrong_method",
         }
@@ -225,9 +236,25 @@ impl Kind {
     fn is_fault(&self) -> bool {
         self.name().starts_with("fault")
     }
+    fn may_be_answered(&self) -> bool {
+        matches!(
+            self,
+            Kind::LocationNotInMatrixAtOrigin(_) | Kind::LocationNotInMatrixAtDepot(_) | Kind::SlotEndsBeforeStart(_) | Kind::DanglingVehicleType(_) | Kind::RaggedMatrix(_)
+        )
+    }
     /// faults that make the handler panic inside solve_instance
     fn panics_in_handler(&self) -> bool {
-        matches!(self, Kind::DanglingReference(_) | Kind::BadTimestamp(_) | Kind::MatrixMismatch(_))
+        matches!(
+            self,
+            Kind::DanglingReference(_)
+                | Kind::BadTimestamp(_)
+                | Kind::MatrixMismatch(_)
+                | Kind::LocationNotInMatrixAtOrigin(_)
+                | Kind::LocationNotInMatrixAtDepot(_)
+                | Kind::SlotEndsBeforeStart(_)
+                | Kind::DanglingVehicleType(_)
+                | Kind::RaggedMatrix(_)
+        )
     }
 }
 
@@ -270,6 +297,36 @@ fn corrupt(v: &Value, kind: &Kind) -> Vec<u8> {
                 x["deadHeadTrips"]["distances"] = json!([]);
             }
         }
+        Kind::LocationNotInMatrixAtOrigin(_) => {
+            x["locations"].as_array_mut().unwrap().push(json!({"id": "nowhere-in-the-matrix"}));
+            x["routes"][0]["segments"][0]["origin"] = json!("nowhere-in-the-matrix");
+        }
+        Kind::LocationNotInMatrixAtDepot(_) => {
+            x["locations"].as_array_mut().unwrap().push(json!({"id": "nowhere-in-the-matrix"}));
+            let vt = x["vehicleTypes"][0]["id"].clone();
+            let depot = json!({"id": "depot-nowhere", "location": "nowhere-in-the-matrix", "capacity": 5, "allowedTypes": [{"vehicleType": vt, "capacity": 5}]});
+            match x.get_mut("depots").and_then(|d| d.as_array_mut()) {
+                Some(ds) => ds.push(depot),
+                None => x["depots"] = json!([depot]),
+            }
+        }
+        Kind::SlotEndsBeforeStart(_) => {
+            let (st, en) = (json!("2024-03-04T10:00:00"), json!("2024-03-04T09:00:00"));
+            let loc = x["locations"][0]["id"].clone();
+            let slot = json!({"id": "slot-backwards", "location": loc, "start": st, "end": en, "trackCount": 1});
+            match x.get_mut("maintenanceSlots").and_then(|d| d.as_array_mut()) {
+                Some(ms) => ms.push(slot),
+                None => x["maintenanceSlots"] = json!([slot]),
+            }
+        }
+        Kind::DanglingVehicleType(_) => {
+            x["routes"][0]["vehicleType"] = json!("no-such-type");
+        }
+        Kind::RaggedMatrix(_) => {
+            if let Some(row) = x["deadHeadTrips"]["durations"][0].as_array_mut() {
+                row.pop();
+            }
+        }
         _ => {}
     }
     serde_json::to_vec(&x).unwrap()
@@ -293,7 +350,15 @@ fn perform(port: u16, kind: &Kind, valid: &[ValidInstance]) -> Outcome {
             http(port, "POST", "/solve", js, &g, Delivery::Plain, 60)
         }
         Kind::DisconnectMidBody(i) => http(port, "POST", "/solve", js, &valid[*i].body, Delivery::DisconnectMidBody, 60),
-        Kind::MissingField(i) | Kind::DanglingReference(i) | Kind::BadTimestamp(i) | Kind::MatrixMismatch(i) => {
+        Kind::MissingField(i)
+        | Kind::DanglingReference(i)
+        | Kind::BadTimestamp(i)
+        | Kind::MatrixMismatch(i)
+        | Kind::LocationNotInMatrixAtOrigin(i)
+        | Kind::LocationNotInMatrixAtDepot(i)
+        | Kind::SlotEndsBeforeStart(i)
+        | Kind::DanglingVehicleType(i)
+        | Kind::RaggedMatrix(i) => {
             http(port, "POST", "/solve", js, &corrupt(&valid[*i].input, kind), Delivery::Plain, 120)
         }
         Kind::UnknownRoute => http(port, "GET", "/no/such/route", None, &[], Delivery::Plain, 60),
@@ -373,6 +438,11 @@ fn judge_event(e: &Event, valid: &[ValidInstance], out: &mut CaseOut, phase: &st
                     }
                 }
             }
+        }
+        // an inconsistent instance whose broken part happens to be unused may be solved: that is
+        // no isolation failure (these kinds are there to make handlers die at different depths)
+        (k, Outcome::Response { .. }) if k.may_be_answered() => {
+            let _ = k;
         }
         (k, Outcome::Response { status, body }) if k.is_fault() => {
             if *status == 200 && is_schedule_answer(body) {
@@ -588,8 +658,13 @@ pub fn case(ctx: &Ctx, idx: u64) -> CaseOut {
                 66 => Kind::Garbage5Mb,
                 67..=70 => Kind::DisconnectMidBody(v),
                 71..=75 => Kind::MissingField(v),
-                76..=82 => Kind::DanglingReference(v),
-                83..=88 => Kind::BadTimestamp(v),
+                76..=78 => Kind::DanglingReference(v),
+                79..=80 => Kind::LocationNotInMatrixAtOrigin(v),
+                81..=82 => Kind::LocationNotInMatrixAtDepot(v),
+                83..=85 => Kind::BadTimestamp(v),
+                86 => Kind::SlotEndsBeforeStart(v),
+                87 => Kind::DanglingVehicleType(v),
+                88 => Kind::RaggedMatrix(v),
                 89..=93 => Kind::MatrixMismatch(v),
                 94..=96 => Kind::UnknownRoute,
                 _ => Kind::WrongMethod,
@@ -629,10 +704,59 @@ pub fn case(ctx: &Ctx, idx: u64) -> CaseOut {
         let _ = h.join();
     }
     let alive_after_burst = matches!(server.child.try_wait(), Ok(None));
+    // ---------------------------------------------------------------- soak: hundreds of failing requests on the same process
+    // (a resource that a failing request does not give back - a slot, a permit, a thread - runs
+    // out only after many of them)
+    let soak = idx % 3 == 1;
+    let soak_events: Arc<Mutex<Vec<Event>>> = Arc::new(Mutex::new(Vec::new()));
+    if soak && alive_after_burst {
+        let per_thread = if ctx.thorough() { 250 } else { 60 };
+        let n_threads = 8;
+        let mut hs = Vec::new();
+        for c in 0..n_threads {
+            let valid = valid.clone();
+            let soak_events = soak_events.clone();
+            let mut r = Rng::new(mix(&[ctx.seed, hash_str("soak"), idx, c as u64]));
+            hs.push(std::thread::spawn(move || {
+                for seq in 0..per_thread {
+                    let v = r.usize(0, valid.len() - 1);
+                    let kind = match r.below(14) {
+                        0 => Kind::DanglingReference(v),
+                        1 => Kind::BadTimestamp(v),
+                        2 => Kind::MatrixMismatch(v),
+                        3 | 4 => Kind::LocationNotInMatrixAtOrigin(v),
+                        5 | 6 => Kind::LocationNotInMatrixAtDepot(v),
+                        7 => Kind::SlotEndsBeforeStart(v),
+                        8 => Kind::DanglingVehicleType(v),
+                        9 => Kind::RaggedMatrix(v),
+                        10 => Kind::NotJson,
+                        11 => Kind::DisconnectMidBody(v),
+                        12 => Kind::MissingField(v),
+                        _ => Kind::Health,
+                    };
+                    let call_ns = t0.elapsed().as_nanos();
+                    let outcome = perform(port, &kind, &valid);
+                    let ret_ns = t0.elapsed().as_nanos();
+                    soak_events.lock().unwrap().push(Event { client: 1000 + c, seq, kind, call_ns, ret_ns, outcome });
+                }
+            }));
+        }
+        for h in hs {
+            let _ = h.join();
+        }
+    }
+    let alive_after_soak = matches!(server.child.try_wait(), Ok(None));
     // ---------------------------------------------------------------- quiescent probes
     let mut probes: Vec<Event> = Vec::new();
-    if alive_after_burst {
-        for (seq, kind) in [Kind::Health, Kind::SolveValid(0), Kind::Health].into_iter().enumerate() {
+    if alive_after_burst && alive_after_soak {
+        let mut kinds = vec![Kind::Health, Kind::SolveValid(0), Kind::Health];
+        if soak {
+            // every valid instance once more on the worn process
+            for i in 1..valid.len() {
+                kinds.push(Kind::SolveValid(i));
+            }
+        }
+        for (seq, kind) in kinds.into_iter().enumerate() {
             let call_ns = t0.elapsed().as_nanos();
             let outcome = perform(port, &kind, &valid);
             let ret_ns = t0.elapsed().as_nanos();
@@ -644,12 +768,24 @@ pub fn case(ctx: &Ctx, idx: u64) -> CaseOut {
 
     // ---------------------------------------------------------------- offline checker
     let hist = history.lock().unwrap().clone();
-    if !alive_after_burst || !alive_at_end {
+    if !alive_after_burst || !alive_after_soak || !alive_at_end {
         out.viol(
             "C18",
             "server.process_exited",
-            format!("the server process exited during the scenario (alive after burst: {}, at end: {})", alive_after_burst, alive_at_end),
+            format!("the server process exited during the scenario (alive after burst: {}, after soak: {}, at end: {})", alive_after_burst, alive_after_soak, alive_at_end),
         );
+    }
+    let soak_hist = soak_events.lock().unwrap().clone();
+    if soak {
+        out.count("soak_scenarios", 1);
+    }
+    for e in &soak_hist {
+        out.count("soak_requests", 1);
+        out.count(&format!("soak.{}", e.kind.name()), 1);
+        if e.kind.panics_in_handler() && matches!(e.outcome, Outcome::Closed(_)) {
+            out.count("soak_requests_whose_handler_died", 1);
+        }
+        judge_event(e, &valid, &mut out, "soak");
     }
     for e in &hist {
         out.count(&format!("requests.{}", e.kind.name()), 1);
